@@ -419,3 +419,52 @@ def bp_once(ctx, rep, rid="LOOP"):
                           "operator position lists an even number of `right` tokens gets its powers swapped back and parses left-associatively"
                           % (fn_tail(name), what), site(body, pt), flow.describe_path(body, path))
     rep.count("binding_power mutation sites", len(sites))
+
+
+# ------------------------------------------------------------------------------------------------
+# C15: fixpoint loops accumulate their change flag (declaration-order independence of the analysis sets)
+# ------------------------------------------------------------------------------------------------
+def fixpoint_rule(ctx, rep, rid="FIX"):
+    rep.rule(rid, "LOOP: in the semantic pass, a boolean variable that decides whether a loop goes round again (`while change`) is, inside any loop "
+                  "nested in that loop, only ever reset to a constant or or-accumulated (`change |= ..`); a plain overwrite inside the inner loop over "
+                  "the declarations forgets the changes made for earlier declarations, so the fixpoint stops early or late depending on the order in "
+                  "which rules are declared")
+    lib = ctx.lelwel()
+    n = 0
+    for b in user_bodies(lib):
+        if not b.name.startswith("frontend::sema::"):
+            continue
+        loops = b.loops()
+        if len(loops) < 2:
+            continue
+        pr = P(b)
+        for Lo in loops:
+            # bool user locals tested by an exit switch of Lo
+            flags = set()
+            for blk in Lo["body"]:
+                t = b.blocks[blk]["t"]
+                if t["t"] == "switch" and any(s not in Lo["body"] for s in b.succ(blk)):
+                    e = pr.operand(t["d"])
+                    if e[0] == "local" and b.local_ty(e[1]) == "bool" and b.varname(e[1]):
+                        flags.add(e[1])
+            for f in flags:
+                n += 1
+                bad = None
+                for Li in loops:
+                    if Li is Lo or not (Li["body"] < Lo["body"]):
+                        continue
+                    for blk in Li["body"]:
+                        for i, s in enumerate(b.blocks[blk]["s"]):
+                            if "rv" in s and not s["a"]["p"] and s["a"]["l"] == f:
+                                e = pr.rvalue(s["rv"])
+                                ok = e[0] == "const" or (e[0] == "bin" and e[1] == "BitOr" and (e[2] == ("local", f, b.varname(f)) or e[3] == ("local", f, b.varname(f))))
+                                if not ok:
+                                    bad = ((blk, i), e)
+                if bad:
+                    rep.violation(rid, "%s|%s|overwrite-in-inner-loop" % (b.name, b.varname(f)), "%s: the loop flag `%s` is overwritten (`%s`) inside a loop nested in the "
+                                  "loop it controls instead of being or-accumulated: whether the outer loop goes round again depends only on the last "
+                                  "declaration visited, so the computed set depends on declaration order" % (b.name, b.varname(f), show(bad[1], 100)), site(b, bad[0]))
+                else:
+                    rep.ok(rid, "%s: loop flag `%s` is only reset or or-accumulated inside nested loops" % (b.name, b.varname(f)))
+    rep.count("loop flags examined", n)
+    rep.floor(rid, 3, "fixpoint loops")
